@@ -887,6 +887,7 @@ class ExtendedZoneProcessor: public ZoneProcessor {
       }
 
       mYear = year;
+      mIsFilled = false; // cache is invalid until the fill below succeeds
       mNumMatches = 0; // clear cache
       mTransitionStorage.init();
 
